@@ -32,20 +32,40 @@ def run(ctx):
         return
     node, text, args, guards = pvprints[0]
     printed = args[0][1][2][0]           # receiver of uci_notation
-    # guards: for _ in 0..depth ; if let Some(entry) = table.get(&hash) ; if let Some(pv) = entry.pv
+    # where the printed move comes from: the binding of `pv` is a let guard (if-let chain, or let-else) whose scrutinee has
+    # the leaves {table.get(&key), <entry>.pv} (an and_then chain) or is <entry>.pv with <entry> bound by a let guard on
+    # table.get(&key)
+    symt = hir.Sym(env, F, through=True)
     lets = [x[1] for x in guards if x[0] == "if" and x[2] is True and x[1][0] == "let"]
-    lookup = [l for l in lets if l[2][0] == "call" and str(l[2][1]).endswith("<K, V, S, A>::get")]
-    ok = len(lookup) == 1 and lookup[0][2][2][0] == ("var", "table")
-    keyvar = lookup[0][2][2][1] if ok else None
-    entry_name = lookup[0][3][0] if ok and lookup[0][3] else None
-    pvlet = [l for l in lets if l[2] == ("field", ("var", entry_name), "pv")]
-    pvname = pvlet[0][3][0] if pvlet and pvlet[0][3] else None
-    ctx.check("C18.V1", "printed-move-is-the-cached-move-of-the-looked-up-entry", ok and bool(pvlet) and printed == ("var", pvname),
+    pvname = printed[1] if printed[0] == "var" else None
+    keyvar = None
+    src = None
+    ok = False
+    for l in lets:
+        if pvname not in (l[3] or ()):
+            continue
+        src = l[2]
+        leaves = [lf for lf, _ in hir.nf_leaves(src)]
+        gets = [lf for lf in leaves if lf[0] == "call" and str(lf[1]).endswith("<K, V, S, A>::get") and lf[2][0] == ("var", "table")]
+        pvs = [lf for lf in leaves if lf[0] == "field" and lf[2] == "pv" and lf[1][0] == "var"]
+        others = [lf for lf in leaves if lf not in gets and lf not in pvs]
+        if len(pvs) == 1 and not others:
+            ent = pvs[0][1][1]
+            if len(gets) == 1:
+                keyvar = gets[0][2][1]
+                ok = True
+            else:
+                for l2 in lets:
+                    if ent in (l2[3] or ()) and l2[2][0] == "call" and str(l2[2][1]).endswith("<K, V, S, A>::get") and l2[2][2][0] == ("var", "table"):
+                        keyvar = l2[2][2][1]
+                        ok = True
+    pvlet = ok
+    ctx.check("C18.V1", "printed-move-is-the-cached-move-of-the-looked-up-entry", ok and keyvar is not None and keyvar[0] == "var",
               fn=DRIVER, file=fn["file"], line=hir.line(node),
               what="the move printed in `info pv` must be the pv of the entry just fetched from the table",
-              expected="print(entry.pv) for entry = table.get(&key)", found={"lookup": hir.fmt(lookup[0][2], 80) if lookup else None,
+              expected="print(entry.pv) for entry = table.get(&key)", found={"source of the printed move": hir.fmt(src, 120) if src else None,
                                                                                "printed": hir.fmt(printed, 40)})
-    if not (ok and pvlet):
+    if not (ok and keyvar is not None):
         return
     # the loop body: push(pv) on the clone, print, key = clone.hash()  (order: push before the new key)
     loop_body = None
@@ -53,15 +73,14 @@ def run(ctx):
         if n is node:
             blocks = [a for a in anc if a.get("k") == "Block" and not a.get("mac")]
             loop_body = blocks[-1]
-    sts = loop_body.get("stmts") or []
     seq = []
     clone_name = None
-    for st in sts:
-        s0 = hir.strip(st)
+    # events of the loop body in source order (pre-order walk = evaluation order for statements)
+    for s0, anc0 in hir.walk(loop_body):
         if s0.get("k") == "MethodCall" and hir.callee_of(s0) == "chess::Game::push":
             clone_name = hir.strip(s0["recv"]).get("to", {}).get("name")
             seq.append(("push", clone_name, hir.fmt(sym(s0["args"][0]), 30)))
-        elif any(x is node for x, _ in hir.walk(st)):
+        elif s0 is node:
             seq.append(("print",))
         elif s0.get("k") == "Assign" and sym(s0["l"]) == keyvar:
             seq.append(("key=", hir.fmt(sym(s0["r"]), 60)))
@@ -71,7 +90,7 @@ def run(ctx):
     ctx.check("C18.V1", "key-rederived-after-each-push-of-the-printed-move", ok, fn=DRIVER, file=fn["file"], line=hir.line(loop_body),
               what="after printing a pv move the walk must play exactly that move on its clone and take the clone's hash as the next key "
                    "(updating the key before the push, or pushing another move, walks a line that was never searched)",
-              expected=[("push", "game_clone", pvname), ("print",), want_key], found=seq)
+              expected=[("push", clone_name, pvname), ("print",), want_key], found=seq)
     # all definitions of the key
     kname = keyvar[1] if keyvar and keyvar[0] == "var" else None
     defs = []
